@@ -144,53 +144,68 @@ def run(ctx):
         seqs.append((nq, nb, calls))
     mres = model.call_many([["builder_run", nq, nb, model_calls(calls)] for nq, nb, calls in seqs])
     ctx.suite("builder", cases=len(seqs))
-    for (nq, nb, calls), (margin, r) in zip(seqs, mres):
-        case = {"nq": nq, "nb": nb, "calls": calls}
+    for (nq, nb, calls), mr in zip(seqs, mres):
         snaps_at = set(rng.sample(range(len(calls)), min(2, len(calls))))
-        b, log, snaps = run_builder(nq, nb, calls, snaps_at)
-        ctx.seen(case, any(l is None for l in log) and any(l is not None for l in log))
-        for l in log:
-            ctx.bump("call_" + (l or "accepted"))
-        mv = ser.canon(r)
-        mir, mlog = implrun.renumber(mv[0]), [None if x == "none" else x[1] for x in mv[1]]
-        post = implrun.canon_post(b.ir.statements)
-        d = None
-        if [l is None for l in log] != [l is None for l in mlog]:
-            d = f"accept/refuse pattern impl {log} model {mlog}"
-        elif ser.struct_diff(post, mir, 1e-12):
-            d = "builder IR differs: " + ser.struct_diff(post, mir, 1e-12)
-        if d:
-            ctx.disagree("builder", case, d)
-        eq = d is None
-        if any(l and l.endswith("+MUTATED") for l in log):
-            ctx.oracle_fail("builder", case, f"a refused call changed the builder's circuit: {log}", eq)
-            continue
-        final = b.to_circuit()
-        bad = wf_circuit(final, nq, nb)
-        if bad:
-            ctx.oracle_fail("builder", case, "builder accepted an ill-formed instruction: " + bad, eq)
-            continue
-        # snapshots are independent: later builder calls and passes on one snapshot never change another
-        for i, snap in snaps:
-            n_at = sum(1 for l in log[:i + 1] if l is None)
-            if len(snap.ir.statements) != n_at:
-                ctx.oracle_fail("builder", case, f"snapshot taken after call {i} has {len(snap.ir.statements)} statements, expected {n_at}", eq)
-                break
-        if len(snaps) >= 1 and final.ir.statements:
-            ref = implrun.canon_post(snaps[0][1].ir.statements)
-            ref_b = implrun.canon_post(b.ir.statements)
-            try:
-                final.merge_single_qubit_gates()
-                final.decompose(implrun.decomposer("zyz"))
-            except Exception:  # noqa: BLE001
-                pass
-            if ser.struct_diff(ref, implrun.canon_post(snaps[0][1].ir.statements), 0) or \
-                    ser.struct_diff(ref_b, implrun.canon_post(b.ir.statements), 0):
-                ctx.oracle_fail("builder", case, "a pass run on one snapshot changed another snapshot or the builder", eq)
+        check_builder(ctx, {"nq": nq, "nb": nb, "calls": calls}, snaps_at, mr)
     ctx.sample({"nq": seqs[0][0], "nb": seqs[0][1], "calls": seqs[0][2]})
     # the same index / arity violations in cQASM source
-    from opensquirrel.circuit import Circuit
+    srcs = parser_sources()
+    from opensquirrel.parser.libqasm.parser import Parser
 
+    reused = Parser()
+    rng.shuffle(srcs)
+    for i, (text, ok) in enumerate(srcs):
+        check_source(ctx, {"text": text}, ok, reused, [t for t, _ in srcs[:i]])
+    ctx.suite("parser_source", cases=len(srcs))
+
+
+def check_builder(ctx, case, snaps_at, mr):
+    nq, nb, calls = case["nq"], case["nb"], case["calls"]
+    margin, r = mr
+    b, log, snaps = run_builder(nq, nb, calls, snaps_at)
+    ctx.seen(case, any(l is None for l in log) and any(l is not None for l in log))
+    case = {**case, "snaps_at": sorted(snaps_at)}        # as recorded: with the snapshot positions the run had drawn
+    for l in log:
+        ctx.bump("call_" + (l or "accepted"))
+    mv = ser.canon(r)
+    mir, mlog = implrun.renumber(mv[0]), [None if x == "none" else x[1] for x in mv[1]]
+    post = implrun.canon_post(b.ir.statements)
+    d = None
+    if [l is None for l in log] != [l is None for l in mlog]:
+        d = f"accept/refuse pattern impl {log} model {mlog}"
+    elif ser.struct_diff(post, mir, 1e-12):
+        d = "builder IR differs: " + ser.struct_diff(post, mir, 1e-12)
+    if d:
+        ctx.disagree("builder", case, d)
+    eq = d is None
+    if any(l and l.endswith("+MUTATED") for l in log):
+        ctx.oracle_fail("builder", case, f"a refused call changed the builder's circuit: {log}", eq)
+        return
+    final = b.to_circuit()
+    bad = wf_circuit(final, nq, nb)
+    if bad:
+        ctx.oracle_fail("builder", case, "builder accepted an ill-formed instruction: " + bad, eq)
+        return
+    # snapshots are independent: later builder calls and passes on one snapshot never change another
+    for i, snap in snaps:
+        n_at = sum(1 for l in log[:i + 1] if l is None)
+        if len(snap.ir.statements) != n_at:
+            ctx.oracle_fail("builder", case, f"snapshot taken after call {i} has {len(snap.ir.statements)} statements, expected {n_at}", eq)
+            break
+    if len(snaps) >= 1 and final.ir.statements:
+        ref = implrun.canon_post(snaps[0][1].ir.statements)
+        ref_b = implrun.canon_post(b.ir.statements)
+        try:
+            final.merge_single_qubit_gates()
+            final.decompose(implrun.decomposer("zyz"))
+        except Exception:  # noqa: BLE001
+            pass
+        if ser.struct_diff(ref, implrun.canon_post(snaps[0][1].ir.statements), 0) or \
+                ser.struct_diff(ref_b, implrun.canon_post(b.ir.statements), 0):
+            ctx.oracle_fail("builder", case, "a pass run on one snapshot changed another snapshot or the builder", eq)
+
+
+def parser_sources():
     srcs = []
     for nq in (1, 2, 3):
         for i in (-1, 0, nq - 1, nq, nq + 1):
@@ -204,44 +219,67 @@ def run(ctx):
         srcs.append((f"version 3.0\nqubit[{nq}] q\nNope q[0]\n", False))
         srcs.append((f"version 3.0\nqubit[{nq + 1}] q\nH q[{nq}]\nCNOT q[0], q[0]\n", False))      # refused by OpenSquirrel after H was converted
         srcs.append((f"version 3.0\nqubit[{nq}] q\nX q[0]\n", True))
+    return srcs
+
+
+def check_source(ctx, case, ok, reused, history):
+    """history: the programs the long-lived Parser `reused` was given before this one (recorded for the replay)"""
+    from opensquirrel.circuit import Circuit
+
+    text = case["text"]
+    ctx.seen(case)
+    case = {**case, "well_formed": ok, "history": history}
+    try:
+        c = Circuit.from_string(text)
+        accepted = True
+    except Exception:  # noqa: BLE001
+        accepted = False
+    # refusal must be clean: the same Parser object, used for accepted and refused programs alike, keeps giving
+    # exactly what a fresh parser gives
+    try:
+        c_re = reused.circuit_from_string(text)
+        same = accepted and (c_re.qubit_register_size, c_re.bit_register_size) == (c.qubit_register_size, c.bit_register_size) \
+            and not ser.struct_diff(implrun.canon_post(c_re.ir.statements), implrun.canon_post(c.ir.statements), 0)
+    except Exception:  # noqa: BLE001
+        same = not accepted
+    if not same:
+        ctx.oracle_fail("parser", case, "a Parser object that earlier refused or parsed other programs behaves differently from a fresh one", None)
+        return
+    if accepted and not ok:
+        ctx.oracle_fail("parser", case, "ill-formed program accepted", None)
+    elif accepted:
+        bad = wf_circuit(c, c.qubit_register_size, c.bit_register_size)
+        if bad:
+            ctx.oracle_fail("parser", case, bad, None)
+    elif ok:
+        ctx.oracle_fail("parser", case, "well-formed program refused", None)
+
+
+def replay_source(ctx, case):
+    """a source program again, through a new long-lived Parser that is first given the recorded history"""
     from opensquirrel.parser.libqasm.parser import Parser
 
     reused = Parser()
-    rng.shuffle(srcs)
-    for text, ok in srcs:
-        case = {"text": text}
-        ctx.seen(case)
+    for text in case.get("history", []):
         try:
-            c = Circuit.from_string(text)
-            accepted = True
+            reused.circuit_from_string(text)
         except Exception:  # noqa: BLE001
-            accepted = False
-        # refusal must be clean: the same Parser object, used for accepted and refused programs alike, keeps giving
-        # exactly what a fresh parser gives
-        try:
-            c_re = reused.circuit_from_string(text)
-            same = accepted and (c_re.qubit_register_size, c_re.bit_register_size) == (c.qubit_register_size, c.bit_register_size) \
-                and not ser.struct_diff(implrun.canon_post(c_re.ir.statements), implrun.canon_post(c.ir.statements), 0)
-        except Exception:  # noqa: BLE001
-            same = not accepted
-        if not same:
-            ctx.oracle_fail("parser", case, "a Parser object that earlier refused or parsed other programs behaves differently from a fresh one", None)
-            continue
-        if accepted and not ok:
-            ctx.oracle_fail("parser", case, "ill-formed program accepted", None)
-        elif accepted:
-            bad = wf_circuit(c, c.qubit_register_size, c.bit_register_size)
-            if bad:
-                ctx.oracle_fail("parser", case, bad, None)
-        elif ok:
-            ctx.oracle_fail("parser", case, "well-formed program refused", None)
-    ctx.suite("parser_source", cases=len(srcs))
+            pass
+    ok = case.get("well_formed", dict(parser_sources()).get(case["text"]))
+    check_source(ctx, {"text": case["text"]}, ok, reused, case.get("history", []))
 
 
 def replay(ctx, payload):
-    case = payload.get("case") or (payload.get("first_disagreement") or {}).get("case")
+    from harness import framework
+
+    suite, case = framework.replay_target(payload)
+    if case is None:
+        return framework.replay_nothing(payload)
     if "calls" not in case:
-        return {"fails": payload.get("kind") == "oracle", "case": case}
-    b, log, _ = run_builder(case["nq"], case["nb"], case["calls"], set())
-    bad = wf_circuit(b.to_circuit(), case["nq"], case["nb"])
-    return {"log": log, "ill_formed": bad, "fails": bool(bad) or any(l and l.endswith("+MUTATED") for l in log)}
+        replay_source(ctx, case)
+        return framework.replay_result(ctx)
+    snaps_at = set(case.get("snaps_at", range(min(2, len(case["calls"])))))
+    pub = {k: case[k] for k in ("nq", "nb", "calls")}
+    mr, = model.call_many([["builder_run", case["nq"], case["nb"], model_calls(case["calls"])]])
+    check_builder(ctx, pub, snaps_at, mr)
+    return framework.replay_result(ctx)
